@@ -14,10 +14,16 @@ about the string builder and the tokenizer are plain list reasoning.
 * `evalTree`     — what the prefix tree denotes as a value
 * `compileSrc`, `compile`, `compileADF` — gp.py:480-531
 
-CPython's `eval` of the generated source is NOT modelled: that evaluating `f(g(x), y)` applies the
-callable bound to `f` to the values of the arguments is the meaning `evalTree` gives to `render t`.
+* `exprOfTree`, `envOfPy`, `pyCompile`, `pyCompileADF` — the bridge to `Core/PyExpr.lean`: the Python AST a tree
+  prints, the `evalTree` environment a Python namespace induces, and compilation THROUGH the source text
+  (`eval(compileSrc …, context, {})` = parse the text, evaluate the AST in the namespace)
+
+CPython's `eval` of the generated source is modelled by `Core/PyExpr.lean` (tokenizer, parser, evaluator of the
+expression sub-language); `C12.parse_compileSrc` / `C12.evalSrc_compile` prove that it gives `render t` the
+meaning `evalTree` has.
 -/
 import DeapModel.Core.GpTree
+import DeapModel.Core.PyExpr
 
 namespace GpCompile
 open GpTree
@@ -137,10 +143,8 @@ end
 
 /-! ## Evaluation -/
 
-inductive Val
-  | int (i : Int)
-  | bool (b : Bool)
-  | flt (x : Float)
+/-- first-order Python values (`int`, `bool`, `float`, `str`, `None`), shared with the expression model -/
+abbrev Val := PyLang.Val
 
 /-- the meaning of the names occurring in the source: `funs` = callables of `pset.context`
 (+ the ADFs), `vars` = lambda parameters, then named terminals of `pset.context`,
@@ -188,11 +192,20 @@ def bindArgs (names : List Str) (vals : List Val) (vars : Str → Option Val) : 
     | some nv => some nv.2
     | none => vars x
 
+/-- a lambda parameter also shadows a callable of the context that has the same name (the parameter holds a
+first-order value; calling it raises `TypeError`) -/
+def shadowFuns (names : List Str) (vals : List Val) (funs : Str → Option (List Val → Option Val)) :
+    Str → Option (List Val → Option Val) :=
+  fun x => match (names.zip vals).find? (fun nv => nv.1 == x) with
+    | some _ => none
+    | none => funs x
+
 /-- what `compile(expr, pset)` denotes: with arguments, a callable (wrong argument count raises);
 for a zero-argument set the same with `vals = []` (the value itself). -/
 def compile (env : Env) (arguments : List Str) (t : Tree) (vals : List Val) : Option Val :=
   if vals.length ≠ arguments.length then none
-  else evalTree { env with vars := bindArgs arguments vals env.vars } t
+  else evalTree { env with vars := bindArgs arguments vals env.vars,
+                           funs := shadowFuns arguments vals env.funs } t
 
 /-- one primitive set of `compileADF`: its name, its argument names, its context -/
 structure CPset where
@@ -203,9 +216,14 @@ structure CPset where
 /-- `pset.context = dict(pset.context, **adfdict)`: a fresh namespace for this compilation, in which the
 ADFs compiled so far shadow the set's own names (so a callable compiled earlier keeps its own ADFs) -/
 def withAdfs (env : Env) (adfdict : List (Str × (List Val → Option Val))) : Env :=
-  { env with funs := fun x => match adfdict.find? (fun e => e.1 == x) with
+  { env with
+    funs := fun x => match adfdict.find? (fun e => e.1 == x) with
       | some e => some e.2
-      | none => env.funs x }
+      | none => env.funs x
+    -- the dictionary entry is REPLACED: a value that was bound to the same name is no longer reachable
+    vars := fun x => match adfdict.find? (fun e => e.1 == x) with
+      | some _ => none
+      | none => env.vars x }
 
 /-- NOTE (zero-argument ADF sets, gp.py:550-552): `compile` returns the VALUE of the tree for a set without
 arguments; `compileADF` wraps it into a callable (`lambda value=func: value`) for every set but the main one, so
@@ -240,42 +258,72 @@ def isFlt : Val → Bool
   | .flt _ => true
   | _ => false
 
+/-- `int`, `bool` or `float` -/
+def isNum : Val → Bool
+  | .int _ => true
+  | .bool _ => true
+  | .flt _ => true
+  | _ => false
+
 def toI : Val → Int
   | .int i => i
   | .bool b => if b then 1 else 0
-  | .flt _ => 0
+  | _ => 0
 
 def toF : Val → Float
   | .int i => Float.ofInt i
   | .bool b => if b then 1.0 else 0.0
   | .flt x => x
+  | _ => 0.0
 
 def truthy : Val → Bool
   | .int i => i != 0
   | .bool b => b
   | .flt x => x != 0.0
+  | .str s => !s.isEmpty
+  | .pynone => false
 
 def arith (fi : Int → Int → Int) (ff : Float → Float → Float) (a b : Val) : Val :=
   if isFlt a || isFlt b then .flt (ff (toF a) (toF b)) else .int (fi (toI a) (toI b))
 
 def vlt (a b : Val) : Bool := if isFlt a || isFlt b then toF a < toF b else toI a < toI b
 
-/-- the Python functions the harness registers, by id: `add sub mul neg max2 max3 ite lt and not id dbl five` -/
+/-- `len(str(a))` for an int / bool / str / None (`str` of a float is not modelled) -/
+def widthOf : Val → Option Nat
+  | .int i => some (toString i).length
+  | .bool b => some (if b then 4 else 5)
+  | .str s => some s.length
+  | .pynone => some 4
+  | .flt _ => none
+
+/-- `str.upper` on ASCII text -/
+def upperStr (s : Str) : Str := s.map Char.toUpper
+
+/-- the Python functions the harness registers, by id: `add sub mul neg max2 max3 ite lt and not id dbl five`
+on numbers (a string or `None` operand of an arithmetic / ordering function raises `TypeError`; the string
+functions are separate ids), `concat rev upper pick len width` on strings -/
 def applyOp (op : String) (args : List Val) : Option Val :=
   match op, args with
-  | "add", [a, b] => some (arith (· + ·) (· + ·) a b)
-  | "sub", [a, b] => some (arith (· - ·) (· - ·) a b)
-  | "mul", [a, b] => some (arith (· * ·) (· * ·) a b)
-  | "neg", [a] => some (match a with | .flt x => .flt (-x) | v => .int (-(toI v)))
-  | "max2", [a, b] => some (if vlt a b then b else a)
-  | "max3", [a, b, c] => some (let r := if vlt a b then b else a; if vlt r c then c else r)
+  | "add", [a, b] => if isNum a && isNum b then some (arith (· + ·) (· + ·) a b) else none
+  | "sub", [a, b] => if isNum a && isNum b then some (arith (· - ·) (· - ·) a b) else none
+  | "mul", [a, b] => if isNum a && isNum b then some (arith (· * ·) (· * ·) a b) else none
+  | "neg", [a] => if isNum a then some (match a with | .flt x => .flt (-x) | v => .int (-(toI v))) else none
+  | "max2", [a, b] => if isNum a && isNum b then some (if vlt a b then b else a) else none
+  | "max3", [a, b, c] =>
+    if isNum a && isNum b && isNum c then some (let r := if vlt a b then b else a; if vlt r c then c else r) else none
   | "ite", [c, a, b] => some (if truthy c then a else b)
-  | "lt", [a, b] => some (.bool (vlt a b))
+  | "lt", [a, b] => if isNum a && isNum b then some (.bool (vlt a b)) else none
   | "and", [a, b] => some (if truthy a then b else a)
   | "not", [a] => some (.bool (!truthy a))
   | "id", [a] => some a
-  | "dbl", [a] => some (arith (· + ·) (· + ·) a a)      -- `lambda x: x + x`
+  | "dbl", [a] => if isNum a then some (arith (· + ·) (· + ·) a a) else none      -- `lambda x: x + x`
   | "five", [] => some (.int 5)                       -- a zero-argument primitive (`five()`)
+  | "concat", [.str a, .str b] => some (.str (a ++ b))                           -- `a + b`
+  | "rev", [.str a] => some (.str a.reverse)                                      -- `a[::-1]`
+  | "upper", [.str a] => some (.str (upperStr a))                                 -- `a.upper()`
+  | "pick", [.str a, b, c] => some (if a.length % 2 = 1 then b else c)            -- `b if len(a) % 2 else c`
+  | "len", [.str a] => some (.int a.length)                                       -- `len(a)`
+  | "width", [a] => (widthOf a).map (fun n => .int n)                             -- `len(str(a))`
   | _, _ => none
 
 
@@ -300,5 +348,79 @@ def sessGo : List (PSig × Env × Tree) → List (Str × (List Val → Option Va
 def mkItems : List PSig → List Env → List Tree → List (PSig × Env × Tree)
   | sg :: sgs, c :: cs, t :: ts => (sg, c, t) :: mkItems sgs cs ts
   | _, _, _ => []
+
+/-! ## The bridge to the Python expression model (`Core/PyExpr.lean`)
+
+`compile` above gives a tree its meaning directly (`evalTree`).  The real `gp.compile` goes through TEXT:
+it builds `compileSrc` and hands it to `eval(code, pset.context, {})`.  `pyCompile` is that path in the model:
+the text is tokenized and parsed (`PyLang.parseExpr`) and the AST is evaluated in the namespace
+(`PyLang.evalPy` / `callPy`). -/
+
+open PyLang (PyExpr PyEnv PyObj)
+
+mutual
+/-- the Python AST the printed tree is meant to denote: a primitive node is a call of its name, a terminal the
+name / literal its text spells -/
+def exprOfTree : Tree → PyExpr
+  | .node p as =>
+    if p.kind = .prim then .call p.name.toList (exprOfF as)
+    else (PyLang.atomOf p.text.toList).getD (.name p.text.toList)
+def exprOfF : List Tree → List PyExpr
+  | [] => []
+  | t :: ts => exprOfTree t :: exprOfF ts
+end
+
+/-- the node can be written into a source text of the sub-language: the name of a primitive is an identifier
+(not a keyword), the text of a terminal is an identifier or a literal (`PyLang.atomOf`) -/
+def SrcOK (p : Prim) : Bool :=
+  if p.kind = .prim then PyLang.isIdent p.name.toList else PyLang.isAtomText p.text.toList
+
+/-- the argument names of the set are distinct identifiers (what `lambda a,b: …` requires) -/
+def ArgsOK (arguments : List Str) : Bool := arguments.all PyLang.isIdent && PyLang.nodupStr arguments
+
+/-- the `evalTree` environment a Python namespace induces.  A `Name` node can only ever look up an identifier, so
+entries of the dictionary under other keys (`context["True"]`, which `addTerminal(True, bool)` writes) are
+unreachable; literals have the value Python gives them. -/
+def envOfPy (P : PyEnv) : Env where
+  funs := fun x => if PyLang.isIdent x then (match P.globals x with | some (.fn f) => some f | _ => none) else none
+  vars := fun x => if PyLang.isIdent x then (match P.globals x with | some (.val v) => some v | _ => none) else none
+  lit := PyLang.litOf
+
+/-- `gp.compile(expr, pset)` as the code does it: `eval(compileSrc …, pset.context, {})`, then the call -/
+def pyCompile (P : PyEnv) (arguments : List Str) (expr : List Prim) (vals : List Val) : Option Val :=
+  PyLang.evalSrc P (decide (arguments.length > 0)) (compileSrc arguments expr) vals
+
+/-- `dict(pset.context, **adfdict)` -/
+def withAdfsPy (P : PyEnv) (adfdict : List (Str × (List Val → Option Val))) : PyEnv :=
+  { P with globals := fun x => match adfdict.find? (fun e => e.1 == x) with
+      | some e => some (.fn e.2)
+      | none => P.globals x }
+
+/-- one primitive set of `compileADF` with its Python namespace -/
+structure PyCPset where
+  name : Str
+  arguments : List Str
+  ctx : PyEnv
+
+/-- the loop body of `compileADF` (gp.py:545-551) on a given source text: `pset.context = dict(pset.context,
+**adfdict)`, `func = eval(src, pset.context, {})`, `adfdict.update({pset.name: func})` -/
+def pyAdfStepSrc (state : List (Str × (List Val → Option Val)) × Option (List Val → Option Val))
+    (pt : PyCPset × Str) : List (Str × (List Val → Option Val)) × Option (List Val → Option Val) :=
+  let func := PyLang.evalSrc (withAdfsPy pt.1.ctx state.1) (decide (pt.1.arguments.length > 0)) pt.2
+  ((pt.1.name, func) :: state.1, some func)
+
+/-- the same with the source `compile` builds from the tree -/
+def pyAdfStep (state : List (Str × (List Val → Option Val)) × Option (List Val → Option Val))
+    (pt : PyCPset × List Prim) : List (Str × (List Val → Option Val)) × Option (List Val → Option Val) :=
+  pyAdfStepSrc state (pt.1, compileSrc pt.1.arguments pt.2)
+
+/-- `compileADF` on given source texts (what the correspondence run feeds with the texts DEAP really evaluated) -/
+def pyCompileADFSrc (pts : List (PyCPset × Str)) : Option (List Val → Option Val) :=
+  (pts.reverse.foldl pyAdfStepSrc ([], none)).2
+
+/-- `compileADF(expr, psets)` through the source texts: the ADF callables are in the globals of the lambdas
+compiled after them -/
+def pyCompileADF (pts : List (PyCPset × List Prim)) : Option (List Val → Option Val) :=
+  (pts.reverse.foldl pyAdfStep ([], none)).2
 
 end GpCompile
